@@ -1918,3 +1918,16 @@ Proof.
   destruct (last_write k (reqs_from g 0 evs)) as [x|] eqn:E; [|discriminate].
   exact (last_write_some_ex _ _ x E).
 Qed.
+
+(* capacity <= 0 means the default capacity *)
+Lemma new_ring_default cap : (cap <= 0)%Z -> new_ring cap = new_ring 10000.
+Proof. intros H. unfold new_ring. destruct (Z.leb_spec cap 0); [|lia]. reflexivity. Qed.
+
+Lemma backlog_range_default cap qs first from to :
+  (cap <= 0)%Z -> consec first qs -> (0 <= first)%Z -> (first + Z.of_nat (length qs) <= two64)%Z ->
+  (0 <= from < two64)%Z -> (0 <= to < two64)%Z ->
+  range repaired (fold_left push qs (new_ring cap)) from to =
+  Ok (map Some (filter (in_range from to) (skipn (length qs - Z.to_nat 10000) qs))).
+Proof.
+  intros Hc. rewrite (new_ring_default cap Hc). apply backlog_range_repaired. unfold max_make. lia.
+Qed.
